@@ -48,6 +48,7 @@ Proof.
     destruct (func_info P f) as [fi|]; [|discriminate].
     destruct (fi_native fi).
     + destruct (find_native (p_natives P) f) as [nt|]; [|discriminate].
+      destruct (n_func nt); cbn [negb] in *; [|discriminate].
       destruct (_ <? nargs); [discriminate | congruence].
     + destruct (_ <? nargs); [discriminate | congruence].
   - assert (s' = s); [|subst; exact Hn].
@@ -273,6 +274,7 @@ Proof.
       destruct (func_info P f) as [fi|]; [|discriminate].
       destruct (fi_native fi).
       * destruct (find_native (p_natives P) f) as [nt|]; [|discriminate].
+        destruct (n_func nt); cbn [negb] in *; [|discriminate].
         destruct (_ <? nargs); [discriminate | reflexivity].
       * destruct (_ <? nargs); [discriminate | reflexivity].
   - unfold arg_ok. destruct (func_info P f) as [fi|]; [|discriminate].
